@@ -379,7 +379,7 @@ static HANG_TABLE: [HangSlot; HANG_SLOTS] = {
     [S; HANG_SLOTS]
 };
 static HANG_NEXT: AtomicU64 = AtomicU64::new(0);
-static HANG_LIMIT_S: AtomicU64 = AtomicU64::new(60);
+static HANG_LIMIT_S: AtomicU64 = AtomicU64::new(120);
 static HANG_MONITOR: std::sync::Once = std::sync::Once::new();
 
 thread_local! {
